@@ -7,38 +7,63 @@ import FlexModel.Fac.CamSpec
 namespace FlexModel.Fac.CamLemmas
 open FlexModel.Fac FlexModel.Fac.Cam FlexModel.Fac.CamSpec Generated.Fac
 
-theorem check_inactive (s : State) (now d : Nat) (ok : Bool) (h : s.active = false) :
-    check s now d ok = (s, none) := by
+/-- regenerated from the source: `_check_cam_conditions` begins with `if not self._active: return` -/
+@[simp] theorem guard_true : Generated.FacFlow.CAM_CHECK_GUARDED = true := by decide
+
+/-- the state in which an active callback leaves the timer bookkeeping -/
+def pre (s : State) : State := rearm { s with inflight := s.inflight - 1 }
+
+theorem transmitted_bookkept (c : Cfg) (f : Fail) (hc : c.ldmIsolated = true) (h : f.transmitted = true) :
+    f.bookkept c = true := by
+  cases f <;> simp_all [Fail.transmitted, Fail.bookkept]
+
+theorem not_transmitted_of_ne (f : Fail) (h : f.transmitted = false) : f ≠ Fail.none := by
+  cases f <;> simp_all [Fail.transmitted]
+
+theorem check_inactive (hav : Pos → Pos → Nat) (s : State) (now : Nat) (f : Fail) (h : s.active = false) :
+    check hav s now f = ({ s with inflight := s.inflight - 1 }, none) := by
   simp [check, h]
 
 /-- everything one needs to know about an emitting check -/
-theorem check_some (s : State) (now d : Nat) (ok : Bool) (c : CamOut)
-    (h : (check s now d ok).2 = some c) :
-    s.active = true ∧ ok = true ∧ ∃ r cond, s.cur = some r ∧ trigger s r now d = some cond ∧
-      c = { t := now, cond := cond, lf := includeLf s now, special := includeSpecial s now && s.cfg.hasSpecialData,
-            vlf := includeVlf s now (includeLf s now) (includeSpecial s now), tw := s.cfg.twoWheeler,
-            gdt := gdtOf r, rid := r.rid } ∧
-      (check s now d ok).1 = afterSend { s with armed := true } r now cond (includeLf s now) (includeSpecial s now)
-            (includeVlf s now (includeLf s now) (includeSpecial s now)) := by
+theorem check_some (hav : Pos → Pos → Nat) (s : State) (now : Nat) (f : Fail) (c : CamOut)
+    (h : (check hav s now f).2 = some c) :
+    s.active = true ∧ f.transmitted = true ∧ ∃ r cond, s.cur = some r ∧ trigger hav s r now = some cond ∧
+      c = camOf s r now cond ∧
+      (check hav s now f).1 =
+        (if f.bookkept s.cfg = true then
+          afterSend (pre s) r now cond (includeLf s now) (includeSpecial s now)
+            (includeVlf s now (includeLf s now) (includeSpecial s now))
+         else pre s) := by
   unfold check at h ⊢
   split at h
   · simp at h
-  · split at h
+  · rename_i ha
+    split at h
     · simp at h
     · rename_i r hr
       split at h
       · simp at h
       · rename_i cond hc
         split at h
-        · rename_i hok
-          simp at h
-          simp_all
+        · rename_i htx
+          split at h
+          · rename_i hbk
+            simp at h
+            subst h
+            simp at ha
+            exact ⟨ha, htx, r, cond, hr, hc, by simp [camOf], by simp [hbk, pre, ha, htx, camOf]⟩
+          · rename_i hbk
+            simp at h
+            subst h
+            simp at ha
+            exact ⟨ha, htx, r, cond, hr, hc, by simp [camOf], by simp [hbk, pre, ha, htx, camOf]⟩
         · simp at h
 
-theorem check_none (s : State) (now d : Nat) (ok : Bool)
-    (h : (check s now d ok).2 = none) :
-    (s.active = false ∧ (check s now d ok).1 = s) ∨ (s.active = true ∧ (check s now d ok).1 = { s with armed := true } ∧
-      (s.cur = none ∨ ok = false ∨ ∃ r, s.cur = some r ∧ trigger s r now d = none)) := by
+theorem check_none (hav : Pos → Pos → Nat) (s : State) (now : Nat) (f : Fail)
+    (h : (check hav s now f).2 = none) :
+    (s.active = false ∧ (check hav s now f).1 = { s with inflight := s.inflight - 1 }) ∨
+    (s.active = true ∧ (check hav s now f).1 = pre s ∧
+      (s.cur = none ∨ f.transmitted = false ∨ ∃ r, s.cur = some r ∧ trigger hav s r now = none)) := by
   unfold check at h ⊢
   split
   · rename_i ha; left; simp at ha; exact ⟨ha, rfl⟩
@@ -47,34 +72,67 @@ theorem check_none (s : State) (now d : Nat) (ok : Bool)
     simp at ha
     refine ⟨ha, ?_⟩
     split
-    · rename_i hc; simp [hc]
+    · rename_i hc; simp [hc, pre]
     · rename_i r hr
       split
-      · rename_i ht; simp; right; right; exact ⟨r, hr, ht⟩
-      · split
-        · rename_i hok; simp_all
-        · rename_i hok; simp_all
+      · rename_i ht; simp [pre]; right; right; exact ⟨r, hr, ht⟩
+      · rename_i cond hc
+        by_cases htx : f.transmitted = true
+        · simp [ha, hr, hc, htx] at h
+          split at h <;> simp at h
+        · simp at htx
+          simp [htx, pre]
+
+theorem step_cfg (hav : Pos → Pos → Nat) (s : State) (op : Op) : (step hav s op).1.cfg = s.cfg := by
+  cases op with
+  | start => by_cases ha : s.active = true <;> simp [step, ha]
+  | stop => simp [step]
+  | report r => simp [step]
+  | expire tr => simp [step]
+  | check now f =>
+    simp only [step]
+    cases hc : (check hav s now f).2 with
+    | none =>
+      rcases check_none hav s now f hc with ⟨_, h⟩ | ⟨_, h, _⟩ <;> simp [h, pre, rearm]
+    | some c =>
+      obtain ⟨_, _, r, cond, _, _, _, hs⟩ := check_some hav s now f c hc
+      rw [hs]; split <;> simp [afterSend, pre, rearm]
+
+
+/-- an emitting check in the repaired variant (`ldmIsolated`): the bookkeeping always follows the transmission -/
+theorem check_some_iso (hav : Pos → Pos → Nat) (s : State) (now : Nat) (f : Fail) (c : CamOut)
+    (hiso : s.cfg.ldmIsolated = true) (h : (check hav s now f).2 = some c) :
+    s.active = true ∧ ∃ r cond, s.cur = some r ∧ trigger hav s r now = some cond ∧
+      c = camOf s r now cond ∧
+      (check hav s now f).1 =
+          afterSend (pre s) r now cond (includeLf s now) (includeSpecial s now)
+            (includeVlf s now (includeLf s now) (includeSpecial s now)) := by
+  obtain ⟨ha, htx, r, cond, hr, htr, hc, hs⟩ := check_some hav s now f c h
+  refine ⟨ha, r, cond, hr, htr, hc, ?_⟩
+  rw [hs, if_pos (transmitted_bookkept s.cfg f hiso htx)]
 
 /-! silent -/
-theorem silent_sim (s : State) (m : SilentSt) (op : Op) (hR : m.active = s.active) :
-    ∃ m', silentMon m (op, (step s op).2) = some m' ∧ m'.active = (step s op).1.active := by
+theorem silent_sim (hav : Pos → Pos → Nat) (s : State) (m : SilentSt) (op : Op) (hR : m.active = s.active) :
+    ∃ m', silentMon m (op, (step hav s op).2) = some m' ∧ m'.active = (step hav s op).1.active := by
   cases op with
   | start =>
     by_cases ha : s.active = true <;> simp [step, ha, silentMon]
   | stop => simp [step, silentMon]
   | report r => simp [step, silentMon, hR]
-  | check now d ok =>
+  | expire tr => simp [step, silentMon, hR]
+  | check now f =>
     simp only [step]
-    cases hc : (check s now d ok).2 with
+    cases hc : (check hav s now f).2 with
     | none =>
-      rcases check_none s now d ok hc with ⟨_, h⟩ | ⟨_, h, _⟩ <;> simp [silentMon, h, hR]
+      rcases check_none hav s now f hc with ⟨_, h⟩ | ⟨_, h, _⟩ <;> simp [silentMon, h, hR, pre, rearm]
     | some c =>
-      obtain ⟨ha, _, r, cond, _, _, _, hs⟩ := check_some s now d ok c hc
-      simp [silentMon, hR, ha, hs, afterSend]
+      obtain ⟨ha, _, r, cond, _, _, _, hs⟩ := check_some hav s now f c hc
+      rw [hs]
+      split <;> simp [silentMon, hR, ha, afterSend, pre, rearm]
 
-/-! min gap -/
-theorem trigger_elapsed (s : State) (r : Tpv) (now d cond t : Nat)
-    (h : trigger s r now d = some cond) (ht : s.lastCamTime = some t) : t + T_GEN_CAM_DCC ≤ now := by
+/-! min gap (per activation) -/
+theorem trigger_elapsed (hav : Pos → Pos → Nat) (s : State) (r : Tpv) (now cond t : Nat)
+    (h : trigger hav s r now = some cond) (ht : s.lastCamTime = some t) : t + T_GEN_CAM_DCC ≤ now := by
   unfold trigger at h
   rw [ht] at h
   simp only at h
@@ -84,39 +142,131 @@ theorem trigger_elapsed (s : State) (r : Tpv) (now d cond t : Nat)
     · omega
     · simp at h
 
-theorem minGap_sim (s : State) (m : MinGapSt) (op : Op)
-    (hR : m.active = s.active ∧ m.last = s.lastCamTime) :
-    ∃ m', minGapMon m (op, (step s op).2) = some m' ∧
-      (m'.active = (step s op).1.active ∧ m'.last = (step s op).1.lastCamTime) := by
-  obtain ⟨hA, hL⟩ := hR
+theorem trigger_first (hav : Pos → Pos → Nat) (s : State) (r : Tpv) (now cond : Nat)
+    (h : trigger hav s r now = some cond) (ht : s.lastCamTime = none) : held s now = false := by
+  unfold trigger at h
+  rw [ht] at h
+  simp only at h
+  split at h
+  · simp at h
+  · rename_i hh; simpa using hh
+
+def MinRel (s : State) (m : MinGapSt) : Prop :=
+  s.cfg.ldmIsolated = true ∧ m.active = s.active ∧ m.last = s.lastCamTime
+
+theorem minGap_sim (hav : Pos → Pos → Nat) (s : State) (m : MinGapSt) (op : Op) (hR : MinRel s m) :
+    ∃ m', minGapMon m (op, (step hav s op).2) = some m' ∧ MinRel (step hav s op).1 m' := by
+  obtain ⟨hI, hA, hL⟩ := hR
+  have hI' : (step hav s op).1.cfg.ldmIsolated = true := by rw [step_cfg]; exact hI
+  suffices hx : ∃ m', minGapMon m (op, (step hav s op).2) = some m' ∧
+      (m'.active = (step hav s op).1.active ∧ m'.last = (step hav s op).1.lastCamTime) by
+    obtain ⟨m', h1, h2⟩ := hx; exact ⟨m', h1, hI', h2⟩
   cases op with
   | start =>
     by_cases ha : s.active = true <;> simp [step, ha, minGapMon, hA, hL]
   | stop => simp [step, minGapMon, hL]
   | report r => simp [step, minGapMon, hA, hL]
-  | check now d ok =>
+  | expire tr => simp [step, minGapMon, hA, hL]
+  | check now f =>
     simp only [step]
-    cases hc : (check s now d ok).2 with
+    cases hc : (check hav s now f).2 with
     | none =>
-      rcases check_none s now d ok hc with ⟨_, h⟩ | ⟨_, h, _⟩ <;> simp [minGapMon, h, hA, hL]
+      rcases check_none hav s now f hc with ⟨_, h⟩ | ⟨_, h, _⟩ <;> simp [minGapMon, h, hA, hL, pre, rearm]
     | some c =>
-      obtain ⟨ha, _, r, cond, _, htr, hcx, hs⟩ := check_some s now d ok c hc
-      have hct : c.t = now := by rw [hcx]
+      obtain ⟨ha, r, cond, _, htr, hcx, hs⟩ := check_some_iso hav s now f c hI hc
+      have hct : c.t = now := by rw [hcx]; rfl
       have hgap : noneOrSince m.last T_GenCamMin now = true := by
         rw [hL]
         cases hl : s.lastCamTime with
         | none => rfl
         | some t =>
-          have := trigger_elapsed s r now d cond t htr hl
+          have := trigger_elapsed hav s r now cond t htr hl
           have h100 : T_GEN_CAM_DCC = 100 := by decide
           simp only [noneOrSince, T_GenCamMin]
           apply decide_eq_true
           omega
-      simp [minGapMon, hct, hgap, hs, afterSend, hA, ha]
+      simp [minGapMon, hct, hgap, hs, afterSend, hA, ha, pre, rearm]
+
+/-! the hold across a stop/start cycle: how the time of the last CAM of ANY activation shows in the state -/
+def HoldRel (s : State) (g : Option Nat) : Prop :=
+  match g with
+  | none => s.lastCamTime = none ∧ s.holdUntil = none
+  | some t => s.lastCamTime = some t ∨ (s.lastCamTime = none ∧ s.holdUntil = some (t + T_GEN_CAM_MIN))
+
+theorem holdRel_quiet (hav : Pos → Pos → Nat) (s : State) (g : Option Nat) (op : Op)
+    (h : HoldRel s g) (hq : (step hav s op).2 = none) : HoldRel (step hav s op).1 g := by
+  cases op with
+  | start =>
+    by_cases ha : s.active = true
+    · simpa [step, ha] using h
+    · cases g with
+      | none =>
+        obtain ⟨h1, h2⟩ := h
+        simp [step, ha, HoldRel, h1, h2]
+      | some t =>
+        rcases h with h1 | ⟨h1, h2⟩
+        · simp [step, ha, HoldRel, h1]
+        · simp [step, ha, HoldRel, h1, h2]
+  | stop => cases g <;> simpa [step, HoldRel] using h
+  | report r => cases g <;> simpa [step, HoldRel] using h
+  | expire tr => cases g <;> simpa [step, HoldRel] using h
+  | check now f =>
+    simp only [step] at hq ⊢
+    rcases check_none hav s now f hq with ⟨_, hs⟩ | ⟨_, hs, _⟩ <;> rw [hs] <;>
+      cases g <;> simpa [HoldRel, pre, rearm] using h
+
+/-- an emission in the repaired variants: at least T_GenCamMin after the last CAM of any activation -/
+theorem holdRel_emit (hav : Pos → Pos → Nat) (s : State) (g : Option Nat) (now : Nat) (f : Fail) (c : CamOut)
+    (hI : s.cfg.ldmIsolated = true) (hH : s.cfg.restartHold = true)
+    (h : HoldRel s g) (hc : (check hav s now f).2 = some c) :
+    noneOrSince g T_GenCamMin now = true ∧ HoldRel (check hav s now f).1 (some now) := by
+  obtain ⟨ha, r, cond, _, htr, hcx, hs⟩ := check_some_iso hav s now f c hI hc
+  have h100 : T_GEN_CAM_DCC = 100 := by decide
+  have hmin : T_GEN_CAM_MIN = 100 := by decide
+  refine ⟨?_, ?_⟩
+  · cases g with
+    | none => rfl
+    | some t =>
+      simp only [noneOrSince, T_GenCamMin]
+      apply decide_eq_true
+      rcases h with h1 | ⟨h1, h2⟩
+      · have := trigger_elapsed hav s r now cond t htr h1
+        omega
+      · have hh := trigger_first hav s r now cond htr h1
+        simp [held, hH, h2] at hh
+        omega
+  · rw [hs]; left; simp [afterSend]
+
+def GMinRel (s : State) (m : GMinGapSt) : Prop :=
+  s.cfg.ldmIsolated = true ∧ s.cfg.restartHold = true ∧ HoldRel s m.last
+
+theorem gMinGap_sim (hav : Pos → Pos → Nat) (s : State) (m : GMinGapSt) (op : Op) (hR : GMinRel s m) :
+    ∃ m', gMinGapMon m (op, (step hav s op).2) = some m' ∧ GMinRel (step hav s op).1 m' := by
+  obtain ⟨hI, hH, hG⟩ := hR
+  have hcfg := step_cfg hav s op
+  cases hq : (step hav s op).2 with
+  | none =>
+    refine ⟨m, ?_, by rw [hcfg]; exact hI, by rw [hcfg]; exact hH, holdRel_quiet hav s m.last op hG hq⟩
+    cases op <;> rfl
+  | some c =>
+    cases op with
+    | check now f =>
+      simp only [step] at hq ⊢
+      obtain ⟨hgap, hrel⟩ := holdRel_emit hav s m.last now f c hI hH hG hq
+      obtain ⟨_, r, cond, _, _, hcx, _⟩ := check_some_iso hav s now f c hI hq
+      have hct : c.t = now := by rw [hcx]; rfl
+      refine ⟨{ last := some now }, by simp [gMinGapMon, hct, hgap], ?_, ?_, hrel⟩
+      · have := step_cfg hav s (.check now f); simp only [step] at this; rw [this]; exact hI
+      · have := step_cfg hav s (.check now f); simp only [step] at this; rw [this]; exact hH
+    | start => by_cases ha : s.active = true <;> simp [step, ha] at hq
+    | stop => simp [step] at hq
+    | report r => simp [step] at hq
+    | expire tr => simp [step] at hq
+
 
 /-! LF -/
 def LfRel (s : State) (m : LfSt) : Prop :=
-  m.active = s.active ∧ m.lastLf = s.lastLf ∧ (s.camCount = 0 → s.lastLf = none)
+  s.cfg.ldmIsolated = true ∧ m.active = s.active ∧ m.lastLf = s.lastLf ∧ (s.camCount = 0 → s.lastLf = none)
 
 theorem includeLf_eq (s : State) (now : Nat) (h : s.camCount = 0 → s.lastLf = none) :
     includeLf s now = noneOrSince s.lastLf T_LF now := by
@@ -132,53 +282,61 @@ theorem includeLf_eq (s : State) (now : Nat) (h : s.camCount = 0 → s.lastLf = 
       rw [this]
       simp
 
-theorem lf_sim (s : State) (m : LfSt) (op : Op) (hR : LfRel s m) :
-    ∃ m', lfMon m (op, (step s op).2) = some m' ∧ LfRel (step s op).1 m' := by
-  obtain ⟨hA, hL, h0⟩ := hR
+theorem lf_sim (hav : Pos → Pos → Nat) (s : State) (m : LfSt) (op : Op) (hR : LfRel s m) :
+    ∃ m', lfMon m (op, (step hav s op).2) = some m' ∧ LfRel (step hav s op).1 m' := by
+  obtain ⟨hI, hA, hL, h0⟩ := hR
+  have hI' : (step hav s op).1.cfg.ldmIsolated = true := by rw [step_cfg]; exact hI
+  suffices hx : ∃ m', lfMon m (op, (step hav s op).2) = some m' ∧
+      (m'.active = (step hav s op).1.active ∧ m'.lastLf = (step hav s op).1.lastLf ∧
+        ((step hav s op).1.camCount = 0 → (step hav s op).1.lastLf = none)) by
+    obtain ⟨m', h1, h2⟩ := hx; exact ⟨m', h1, hI', h2⟩
   cases op with
   | start =>
-    by_cases ha : s.active = true <;> simp [step, ha, lfMon, hA, hL, LfRel] <;> exact h0
-  | stop => simp [step, lfMon, hL, LfRel]; exact h0
-  | report r => simp [step, lfMon, hA, hL, LfRel]; exact h0
-  | check now d ok =>
+    by_cases ha : s.active = true <;> simp [step, ha, lfMon, hA, hL] <;> exact h0
+  | stop => simp [step, lfMon, hL]; exact h0
+  | report r => simp [step, lfMon, hA, hL]; exact h0
+  | expire tr => simp [step, lfMon, hA, hL]; exact h0
+  | check now f =>
     simp only [step]
-    cases hc : (check s now d ok).2 with
+    cases hc : (check hav s now f).2 with
     | none =>
-      rcases check_none s now d ok hc with ⟨_, h⟩ | ⟨_, h, _⟩ <;> simp [lfMon, h, hA, hL, LfRel] <;> exact h0
+      rcases check_none hav s now f hc with ⟨_, h⟩ | ⟨_, h, _⟩ <;> simp [lfMon, h, hA, hL, pre, rearm] <;> exact h0
     | some c =>
-      obtain ⟨ha, _, r, cond, _, htr, hcx, hs⟩ := check_some s now d ok c hc
+      obtain ⟨ha, r, cond, _, htr, hcx, hs⟩ := check_some_iso hav s now f c hI hc
       have hlf : c.lf = noneOrSince m.lastLf T_LF now := by
         rw [hcx, hL]; exact includeLf_eq s now h0
       simp only [lfMon, hlf, if_true, hs]
       refine ⟨_, rfl, ?_⟩
-      simp only [LfRel, afterSend, hA, ha, true_and]
+      simp only [afterSend, pre, rearm, hA, ha, true_and]
       rw [← hlf, hcx]
-      simp [hL]
+      simp [hL, camOf]
 
-/-! latest report, generationDeltaTime -/
-theorem latest_sim (s : State) (m : LatestSt) (op : Op) (hR : m.cur = s.cur) :
-    ∃ m', latestMon m (op, (step s op).2) = some m' ∧ m'.cur = (step s op).1.cur := by
+/-! latest report, generationDeltaTime (every variant) -/
+theorem latest_sim (hav : Pos → Pos → Nat) (s : State) (m : LatestSt) (op : Op) (hR : m.cur = s.cur) :
+    ∃ m', latestMon m (op, (step hav s op).2) = some m' ∧ m'.cur = (step hav s op).1.cur := by
   cases op with
   | start =>
     by_cases ha : s.active = true <;> simp [step, ha, latestMon, hR]
   | stop => simp [step, latestMon, hR]
   | report r => simp [step, latestMon]
-  | check now d ok =>
+  | expire tr => simp [step, latestMon, hR]
+  | check now f =>
     simp only [step]
-    cases hc : (check s now d ok).2 with
+    cases hc : (check hav s now f).2 with
     | none =>
-      rcases check_none s now d ok hc with ⟨_, h⟩ | ⟨_, h, _⟩ <;> simp [latestMon, h, hR]
+      rcases check_none hav s now f hc with ⟨_, h⟩ | ⟨_, h, _⟩ <;> simp [latestMon, h, hR, pre, rearm]
     | some c =>
-      obtain ⟨ha, _, r, cond, hcur, htr, hcx, hs⟩ := check_some s now d ok c hc
+      obtain ⟨ha, _, r, cond, hcur, htr, hcx, hs⟩ := check_some hav s now f c hc
       have hg : gdtOk r c.gdt = true := by
-        rw [hcx]; unfold gdtOk gdtOf; cases r.its <;> simp
-      have h1 : c.rid = r.rid := by rw [hcx]
-      have h2 : c.t = now := by rw [hcx]
-      simp [latestMon, hR, hcur, hg, h1, h2, hs, afterSend]
+        rw [hcx]; unfold gdtOk camOf gdtOf; cases r.its <;> simp
+      have h1 : c.rid = r.rid := by rw [hcx]; rfl
+      have h2 : c.t = now := by rw [hcx]; rfl
+      rw [hs]
+      split <;> simp [latestMon, hR, hcur, hg, h1, h2, afterSend, pre, rearm]
 
-/-! invariants: T_GenCamMin ≤ T_GenCam ≤ T_GenCamMax, timer armed iff active -/
+/-! invariants: T_GenCamMin ≤ T_GenCam ≤ T_GenCamMax; while active a timer is pending or a callback is in flight -/
 def CamInv (s : State) : Prop :=
-  T_GEN_CAM_MIN ≤ s.tGenCam ∧ s.tGenCam ≤ T_GEN_CAM_MAX ∧ s.armed = s.active
+  T_GEN_CAM_MIN ≤ s.tGenCam ∧ s.tGenCam ≤ T_GEN_CAM_MAX ∧ (s.active = true → 1 ≤ s.live + s.inflight)
 
 theorem afterSend_tgen (s : State) (r : Tpv) (now cond : Nat) (a b c : Bool) :
     T_GEN_CAM_MIN ≤ (afterSend s r now cond a b c).tGenCam ∧ (afterSend s r now cond a b c).tGenCam ≤ T_GEN_CAM_MAX := by
@@ -188,42 +346,56 @@ theorem afterSend_tgen (s : State) (r : Tpv) (now cond : Nat) (a b c : Bool) :
   split <;> (try split) <;> simp <;> omega
 
 theorem inv_init (cfg : Cfg) : CamInv (init cfg) := by
-  refine ⟨?_, ?_, rfl⟩ <;> simp only [init] <;> decide
+  refine ⟨?_, ?_, ?_⟩ <;> simp only [init] <;> decide
 
-theorem inv_step (s : State) (op : Op) (h : CamInv s) : CamInv (step s op).1 := by
+theorem inv_step (hav : Pos → Pos → Nat) (s : State) (op : Op) (h : CamInv s) : CamInv (step hav s op).1 := by
   obtain ⟨h1, h2, h3⟩ := h
   cases op with
   | start =>
     by_cases ha : s.active = true
-    · simp [step, ha, CamInv]; exact ⟨h1, h2, by rw [h3, ha]⟩
-    · simp [step, ha, CamInv]; decide
+    · simp [step, ha, CamInv]; exact ⟨h1, h2, h3 ha⟩
+    · simp [step, ha, CamInv]
+      first | omega | exact ⟨by decide, by decide, by omega⟩
   | stop => simp [step, CamInv]; exact ⟨h1, h2⟩
   | report r => simp [step, CamInv]; exact ⟨h1, h2, h3⟩
-  | check now d ok =>
+  | expire tr => simp [step, CamInv]; exact ⟨h1, h2, fun _ => by omega⟩
+  | check now f =>
     simp only [step]
-    cases hc : (check s now d ok).2 with
+    cases hc : (check hav s now f).2 with
     | none =>
-      rcases check_none s now d ok hc with ⟨_, h⟩ | ⟨ha, h, _⟩
-      · rw [h]; exact ⟨h1, h2, h3⟩
+      rcases check_none hav s now f hc with ⟨ha, h⟩ | ⟨ha, h, _⟩
       · rw [h]; exact ⟨h1, h2, by simp [ha]⟩
+      · rw [h]; exact ⟨h1, h2, fun _ => by simp [pre, rearm]; omega⟩
     | some c =>
-      obtain ⟨ha, _, r, cond, _, _, _, hs⟩ := check_some s now d ok c hc
+      obtain ⟨ha, _, r, cond, _, _, _, hs⟩ := check_some hav s now f c hc
       rw [hs]
-      have := afterSend_tgen { s with armed := true } r now cond (includeLf s now) (includeSpecial s now)
-            (includeVlf s now (includeLf s now) (includeSpecial s now))
-      refine ⟨this.1, this.2, ?_⟩
-      simp [afterSend, ha]
+      split
+      · have := afterSend_tgen (pre s) r now cond (includeLf s now) (includeSpecial s now)
+              (includeVlf s now (includeLf s now) (includeSpecial s now))
+        refine ⟨this.1, this.2, fun _ => ?_⟩
+        simp [afterSend, pre, rearm]; omega
+      · exact ⟨h1, h2, fun _ => by simp [pre, rearm]; omega⟩
+
 
 /-! max gap -/
-theorem trigger_none (s : State) (r : Tpv) (now d : Nat) (h : trigger s r now d = none) :
+theorem trigger_none (hav : Pos → Pos → Nat) (s : State) (r : Tpv) (now : Nat) (h : trigger hav s r now = none) :
+    (s.lastCamTime = none ∧ held s now = true) ∨
     ∃ t, s.lastCamTime = some t ∧ ¬ (now ≥ t + s.tGenCam ∧ now ≥ t + T_GEN_CAM_DCC) ∧
-      ¬ (now ≥ t + T_GEN_CAM_DCC ∧ dynamics s r d = true) := by
+      ¬ (now ≥ t + T_GEN_CAM_DCC ∧ dynamics hav s r = true) := by
   unfold trigger at h
   cases hl : s.lastCamTime with
-  | none => rw [hl] at h; simp at h
+  | none =>
+    rw [hl] at h
+    simp only at h
+    left
+    refine ⟨rfl, ?_⟩
+    split at h
+    · assumption
+    · simp at h
   | some t =>
     rw [hl] at h
     simp only at h
+    right
     refine ⟨t, rfl, ?_, ?_⟩
     · split at h
       · simp at h
@@ -234,75 +406,160 @@ theorem trigger_none (s : State) (r : Tpv) (now d : Nat) (h : trigger s r now d 
       · simp at h
       · assumption
 
-def MaxRel (s : State) (m : MaxGapSt) : Prop :=
+/-- a held first CAM, seen from the log: less than T_GenCamMin since the last CAM of any activation -/
+theorem held_heldSpec (s : State) (g : Option Nat) (now : Nat) (hG : HoldRel s g)
+    (hl : s.lastCamTime = none) (hh : held s now = true) : heldSpec s.cfg.restartHold g now = true := by
+  have hmin : T_GEN_CAM_MIN = 100 := by decide
+  unfold held at hh
+  simp only [Bool.and_eq_true] at hh
+  obtain ⟨hH, hh⟩ := hh
+  cases g with
+  | none =>
+    obtain ⟨_, h2⟩ := hG
+    rw [h2] at hh; simp at hh
+  | some t =>
+    rcases hG with h1 | ⟨_, h2⟩
+    · rw [hl] at h1; simp at h1
+    · rw [h2] at hh
+      simp only [decide_eq_true_eq] at hh
+      simp only [heldSpec, hH, T_GenCamMin, Bool.true_and]
+      apply decide_eq_true
+      omega
+
+def MaxRel (hold : Bool) (s : State) (m : MaxGapSt) : Prop :=
+  s.cfg.ldmIsolated = true ∧ s.cfg.restartHold = hold ∧
   m.active = s.active ∧ m.hasCur = s.cur.isSome ∧ m.last = s.lastCamTime ∧
   T_GEN_CAM_MIN ≤ s.tGenCam ∧ s.tGenCam ≤ T_GEN_CAM_MAX ∧
-  (∀ t, m.last = some t → ∃ p, m.prev = some p ∧ (m.clean = true → p ≤ t + T_GenCamMax))
+  (∀ t, m.last = some t → ∃ p, m.prev = some p ∧ (m.clean = true → p ≤ t + T_GenCamMax)) ∧
+  HoldRel s m.glast
 
-theorem maxGap_sim (P : Nat) (s : State) (m : MaxGapSt) (op : Op) (hR : MaxRel s m) :
-    ∃ m', maxGapMon P m (op, (step s op).2) = some m' ∧ MaxRel (step s op).1 m' := by
-  obtain ⟨hA, hC, hL, h1, h2, hP⟩ := hR
+theorem maxGap_sim (hav : Pos → Pos → Nat) (hold : Bool) (P : Nat) (s : State) (m : MaxGapSt) (op : Op)
+    (hR : MaxRel hold s m) :
+    ∃ m', maxGapMon hold P m (op, (step hav s op).2) = some m' ∧ MaxRel hold (step hav s op).1 m' := by
+  obtain ⟨hI, hH, hA, hC, hL, h1, h2, hP, hG⟩ := hR
   have hmin : T_GEN_CAM_MIN = 100 := by decide
   have hmax : T_GEN_CAM_MAX = 1000 := by decide
   have hdcc : T_GEN_CAM_DCC = 100 := by decide
+  have hI' : (step hav s op).1.cfg.ldmIsolated = true := by rw [step_cfg]; exact hI
+  have hH' : (step hav s op).1.cfg.restartHold = hold := by rw [step_cfg]; exact hH
+  suffices hx : ∃ m', maxGapMon hold P m (op, (step hav s op).2) = some m' ∧
+      (m'.active = (step hav s op).1.active ∧ m'.hasCur = (step hav s op).1.cur.isSome ∧
+       m'.last = (step hav s op).1.lastCamTime ∧
+       T_GEN_CAM_MIN ≤ (step hav s op).1.tGenCam ∧ (step hav s op).1.tGenCam ≤ T_GEN_CAM_MAX ∧
+       (∀ t, m'.last = some t → ∃ p, m'.prev = some p ∧ (m'.clean = true → p ≤ t + T_GenCamMax)) ∧
+       HoldRel (step hav s op).1 m'.glast) by
+    obtain ⟨m', h1, h2⟩ := hx; exact ⟨m', h1, hI', hH', h2⟩
   cases op with
   | start =>
+    have hq : (step hav s .start).2 = none := by by_cases ha : s.active = true <;> simp [step, ha]
+    have hG' := holdRel_quiet hav s m.glast .start hG hq
     by_cases ha : s.active = true
-    · simp [step, ha, maxGapMon, hA, MaxRel]; exact ⟨hC, hL, h1, h2, hP⟩
-    · simp [step, ha, maxGapMon, hA, MaxRel, hC]; decide
-  | stop => simp [step, maxGapMon, MaxRel]; exact ⟨hC, hL, h1, h2, hP⟩
-  | report r => simp [step, maxGapMon, MaxRel]; exact ⟨hA, hL, h1, h2, hP⟩
-  | check now d ok =>
+    · have hs : (step hav s .start).1 = s := by simp [step, ha]
+      rw [hs] at hG' ⊢
+      exact ⟨m, by simp [maxGapMon, hA, ha], hA, hC, hL, h1, h2, hP, hG'⟩
+    · refine ⟨{ m with active := true, last := none, prev := none, clean := true }, by simp [maxGapMon, hA, ha],
+        ?_, ?_, ?_, ?_, ?_, ?_, hG'⟩
+      · simp [step, ha]
+      · simp [step, ha, hC]
+      · simp [step, ha]
+      · simp [step, ha]; decide
+      · simp [step, ha]
+      · intro t ht; simp at ht
+  | stop =>
+    have hG' := holdRel_quiet hav s m.glast .stop hG (by simp [step])
+    refine ⟨{ m with active := false }, rfl, ?_, ?_, ?_, ?_, ?_, ?_, hG'⟩
+    · simp [step]
+    · simp [step, hC]
+    · simp [step, hL]
+    · simp [step]; exact h1
+    · simp [step]; exact h2
+    · exact hP
+  | report r =>
+    have hG' := holdRel_quiet hav s m.glast (.report r) hG (by simp [step])
+    refine ⟨{ m with hasCur := true }, rfl, ?_, ?_, ?_, ?_, ?_, ?_, hG'⟩
+    · simp [step, hA]
+    · simp [step]
+    · simp [step, hL]
+    · simp [step]; exact h1
+    · simp [step]; exact h2
+    · exact hP
+  | expire tr =>
+    have hG' := holdRel_quiet hav s m.glast (.expire tr) hG (by simp [step])
+    refine ⟨m, rfl, ?_, ?_, ?_, ?_, ?_, ?_, hG'⟩
+    · simp [step, hA]
+    · simp [step, hC]
+    · simp [step, hL]
+    · simp [step]; exact h1
+    · simp [step]; exact h2
+    · exact hP
+  | check now f =>
     simp only [step]
-    cases hc : (check s now d ok).2 with
+    cases hc : (check hav s now f).2 with
     | none =>
-      rcases check_none s now d ok hc with ⟨ha, h⟩ | ⟨ha, h, hwhy⟩
-      · rw [h]
-        simp [maxGapMon, hA, ha]; exact ⟨hA, hC, hL, h1, h2, hP⟩
-      · rw [h]
+      have hG' := holdRel_quiet hav s m.glast (.check now f) hG (by simpa [step] using hc)
+      simp only [step] at hG'
+      rcases check_none hav s now f hc with ⟨ha, h⟩ | ⟨ha, h, hwhy⟩
+      · rw [h] at hG' ⊢
+        refine ⟨m, by simp [maxGapMon, hA, ha], ?_⟩
+        exact ⟨hA, hC, hL, h1, h2, hP, hG'⟩
+      · rw [h] at hG' ⊢
         have hact : (!m.active) = false := by simp [hA, ha]
         -- a serviceable check that emitted nothing: the trigger did not fire
-        have key : (m.hasCur && ok && near m.prev now P) = true →
+        have key : (m.hasCur && decide (f = Fail.none) && near m.prev now P) = true →
+            (m.last = none ∧ heldSpec hold m.glast now = true) ∨
             ∃ t, s.lastCamTime = some t ∧ now < t + T_GenCamMax := by
           intro hg
-          simp only [Bool.and_eq_true] at hg
+          simp only [Bool.and_eq_true, decide_eq_true_eq] at hg
           obtain ⟨⟨hcur, hok⟩, _⟩ := hg
           rcases hwhy with hn | hn | ⟨r, hr, htn⟩
           · rw [hC, hn] at hcur; simp at hcur
-          · rw [hn] at hok; simp at hok
-          · obtain ⟨t, ht, hno, _⟩ := trigger_none s r now d htn
-            refine ⟨t, ht, ?_⟩
-            simp only [T_GenCamMax]
-            omega
-        by_cases hg : (m.hasCur && ok && near m.prev now P) = true
-        · obtain ⟨t, ht, hlt⟩ := key hg
-          have hml : m.last = some t := by rw [hL, ht]
-          have hb : beyond (some t) (T_GenCamMax + P) now = false := by
-            simp only [beyond]; apply decide_eq_false; omega
-          have hmon : maxGapMon P m (Op.check now d ok, none) =
-              some { m with prev := some now, clean := m.clean && true } := by
-            simp [maxGapMon, hact, hg, hml, hb]
-          refine ⟨_, hmon, ?_⟩
-          refine ⟨hA, hC, hL, h1, h2, ?_⟩
-          intro t' ht'
-          refine ⟨now, rfl, ?_⟩
-          intro _
-          have : t' = t := by
+          · rw [hok] at hn; simp [Fail.transmitted] at hn
+          · rcases trigger_none hav s r now htn with ⟨hl, hh⟩ | ⟨t, ht, hno, _⟩
+            · left
+              refine ⟨by rw [hL, hl], ?_⟩
+              have := held_heldSpec s m.glast now hG hl hh
+              rw [hH] at this; exact this
+            · right
+              refine ⟨t, ht, ?_⟩
+              simp only [T_GenCamMax]
+              omega
+        by_cases hg : (m.hasCur && decide (f = Fail.none) && near m.prev now P) = true
+        · rcases key hg with ⟨hml, hheld⟩ | ⟨t, ht, hlt⟩
+          · have hmon : maxGapMon hold P m (Op.check now f, none) =
+                some { m with prev := some now, clean := m.clean && true } := by
+              simp [maxGapMon, hact, hg, hml, hheld, beyond]
+            refine ⟨_, hmon, ?_⟩
+            refine ⟨hA, hC, hL, h1, h2, ?_, hG'⟩
+            intro t' ht'
             have : m.last = some t' := ht'
-            rw [hml] at this; exact (Option.some.inj this).symm
-          omega
-        · have hgf : (m.hasCur && ok && near m.prev now P) = false := by simpa using hg
-          have hmon : maxGapMon P m (Op.check now d ok, none) =
+            rw [hml] at this; simp at this
+          · have hml : m.last = some t := by rw [hL, ht]
+            have hb : beyond (some t) (T_GenCamMax + P) now = false := by
+              simp only [beyond]; apply decide_eq_false; omega
+            have hmon : maxGapMon hold P m (Op.check now f, none) =
+                some { m with prev := some now, clean := m.clean && true } := by
+              simp [maxGapMon, hact, hg, hml, hb]
+            refine ⟨_, hmon, ?_⟩
+            refine ⟨hA, hC, hL, h1, h2, ?_, hG'⟩
+            intro t' ht'
+            refine ⟨now, rfl, ?_⟩
+            intro _
+            have : t' = t := by
+              have : m.last = some t' := ht'
+              rw [hml] at this; exact (Option.some.inj this).symm
+            omega
+        · have hgf : (m.hasCur && decide (f = Fail.none) && near m.prev now P) = false := by simpa using hg
+          have hmon : maxGapMon hold P m (Op.check now f, none) =
               some { m with prev := some now, clean := false } := by
             simp [maxGapMon, hact, hgf]
           refine ⟨_, hmon, ?_⟩
-          refine ⟨hA, hC, hL, h1, h2, ?_⟩
+          refine ⟨hA, hC, hL, h1, h2, ?_, hG'⟩
           intro t ht
           exact ⟨now, rfl, fun h => by simp at h⟩
     | some c =>
-      obtain ⟨ha, hok, r, cond, hcur, htr, hcx, hs⟩ := check_some s now d ok c hc
+      obtain ⟨ha, r, cond, hcur, htr, hcx, hs⟩ := check_some_iso hav s now f c hI hc
       have hact : (!m.active) = false := by simp [hA, ha]
-      have hcond : (m.clean && (m.hasCur && ok && near m.prev now P)) = true →
+      have hcond : (m.clean && (m.hasCur && decide (f = Fail.none) && near m.prev now P)) = true →
           within m.last (T_GenCamMax + P) now = true := by
         intro hg
         simp only [Bool.and_eq_true] at hg
@@ -317,24 +574,28 @@ theorem maxGap_sim (P : Nat) (s : State) (m : MaxGapSt) (op : Op) (hR : MaxRel s
           simp only [within]
           apply decide_eq_true
           omega
-      have hmon : maxGapMon P m (Op.check now d ok, some c) =
-          some { m with last := some now, prev := some now, clean := true } := by
+      have hmon : maxGapMon hold P m (Op.check now f, some c) =
+          some { m with last := some now, prev := some now, clean := true, glast := some now } := by
         simp only [maxGapMon, hact]
         simp only [Bool.false_eq_true, if_false]
         rw [if_pos hcond]
       refine ⟨_, hmon, ?_⟩
       rw [hs]
-      have hb := afterSend_tgen { s with armed := true } r now cond (includeLf s now) (includeSpecial s now)
+      have hb := afterSend_tgen (pre s) r now cond (includeLf s now) (includeSpecial s now)
             (includeVlf s now (includeLf s now) (includeSpecial s now))
-      refine ⟨by simp [afterSend, hA], by simp [afterSend, hC], by simp [afterSend], hb.1, hb.2, ?_⟩
-      intro t ht
-      have : t = now := by simp at ht; exact ht.symm
-      exact ⟨now, rfl, fun _ => by omega⟩
+      refine ⟨by simp [afterSend, pre, rearm, hA], by simp [afterSend, pre, rearm, hC], by simp [afterSend],
+        hb.1, hb.2, ?_, ?_⟩
+      · intro t ht
+        have : t = now := by simp at ht; exact ht.symm
+        exact ⟨now, rfl, fun _ => by omega⟩
+      · left; simp [afterSend]
+
 
 /-! responsiveness -/
 def RespRel (s : State) (m : RespSt) : Prop :=
+  s.cfg.ldmIsolated = true ∧
   m.active = s.active ∧ m.cur = s.cur ∧ m.last = s.lastCamTime ∧ m.refHeading = s.lastHeading ∧
-  m.refPos = s.lastHasPos ∧ m.refSpeed = s.lastSpeed
+  m.refPos = s.lastPos ∧ m.refSpeed = s.lastSpeed
 
 theorem circDiff_le_headingDiff (a b : Nat) : circDiff a b ≤ headingDiff a b := by
   have hw : CAM_HEADING_WRAP_CDEG = 18000 := by decide
@@ -343,9 +604,9 @@ theorem circDiff_le_headingDiff (a b : Nat) : circDiff a b ≤ headingDiff a b :
   repeat' split
   all_goals omega
 
-theorem specDyn_dynamics (s : State) (m : RespSt) (r : Tpv) (d : Nat)
-    (h4 : m.refHeading = s.lastHeading) (h5 : m.refPos = s.lastHasPos) (h6 : m.refSpeed = s.lastSpeed)
-    (h : specDyn m r d = true) : dynamics s r d = true := by
+theorem specDyn_dynamics (hav : Pos → Pos → Nat) (s : State) (m : RespSt) (r : Tpv)
+    (h4 : m.refHeading = s.lastHeading) (h5 : m.refPos = s.lastPos) (h6 : m.refSpeed = s.lastSpeed)
+    (h : specDyn hav m r = true) : dynamics hav s r = true := by
   have hh : CAM_HEADING_THRESHOLD_CDEG = 400 := by decide
   have hp : CAM_POS_THRESHOLD_MM = 4000 := by decide
   have hv : CAM_SPEED_THRESHOLD_MMS = 500 := by decide
@@ -367,8 +628,15 @@ theorem specDyn_dynamics (s : State) (m : RespSt) (r : Tpv) (d : Nat)
         have := circDiff_le_headingDiff hd lh
         omega
     · left; right
-      simp only [Bool.and_eq_true, decide_eq_true_eq] at h ⊢
-      exact ⟨h.1, by omega⟩
+      cases hrp : r.pos with
+      | none => rw [hrp] at h; simp at h
+      | some p =>
+        cases hlp : s.lastPos with
+        | none => rw [hrp, hlp] at h; simp at h
+        | some q =>
+          rw [hrp, hlp] at h
+          simp only [decide_eq_true_eq] at h ⊢
+          omega
     · right
       cases hrv : r.speed with
       | none => rw [hrv] at h; simp at h
@@ -381,27 +649,35 @@ theorem specDyn_dynamics (s : State) (m : RespSt) (r : Tpv) (d : Nat)
           unfold absDiff
           split <;> omega
 
-theorem resp_sim (s : State) (m : RespSt) (op : Op) (hR : RespRel s m) :
-    ∃ m', respMon m (op, (step s op).2) = some m' ∧ RespRel (step s op).1 m' := by
-  obtain ⟨hA, hC, hL, h4, h5, h6⟩ := hR
+theorem resp_sim (hav : Pos → Pos → Nat) (s : State) (m : RespSt) (op : Op) (hR : RespRel s m) :
+    ∃ m', respMon hav m (op, (step hav s op).2) = some m' ∧ RespRel (step hav s op).1 m' := by
+  obtain ⟨hI, hA, hC, hL, h4, h5, h6⟩ := hR
   have hdcc : T_GEN_CAM_DCC = 100 := by decide
+  have hI' : (step hav s op).1.cfg.ldmIsolated = true := by rw [step_cfg]; exact hI
+  suffices hx : ∃ m', respMon hav m (op, (step hav s op).2) = some m' ∧
+      (m'.active = (step hav s op).1.active ∧ m'.cur = (step hav s op).1.cur ∧
+       m'.last = (step hav s op).1.lastCamTime ∧ m'.refHeading = (step hav s op).1.lastHeading ∧
+       m'.refPos = (step hav s op).1.lastPos ∧ m'.refSpeed = (step hav s op).1.lastSpeed) by
+    obtain ⟨m', h1, h2⟩ := hx; exact ⟨m', h1, hI', h2⟩
   cases op with
   | start =>
     by_cases ha : s.active = true
-    · simp [step, ha, respMon, hA, RespRel]; exact ⟨hC, hL, h4, h5, h6⟩
-    · simp [step, ha, respMon, hA, RespRel, hC]
-  | stop => simp [step, respMon, RespRel]; exact ⟨hC, hL, h4, h5, h6⟩
-  | report r => simp [step, respMon, RespRel]; exact ⟨hA, hL, h4, h5, h6⟩
-  | check now d ok =>
+    · simp [step, ha, respMon, hA]; exact ⟨hC, hL, h4, h5, h6⟩
+    · simp [step, ha, respMon, hA, hC]
+  | stop => simp [step, respMon]; exact ⟨hC, hL, h4, h5, h6⟩
+  | report r => simp [step, respMon]; exact ⟨hA, hL, h4, h5, h6⟩
+  | expire tr => simp [step, respMon]; exact ⟨hA, hC, hL, h4, h5, h6⟩
+  | check now f =>
     simp only [step]
-    cases hc : (check s now d ok).2 with
+    cases hc : (check hav s now f).2 with
     | none =>
-      rcases check_none s now d ok hc with ⟨ha, h⟩ | ⟨ha, h, hwhy⟩
+      rcases check_none hav s now f hc with ⟨ha, h⟩ | ⟨ha, h, hwhy⟩
       · rw [h]
         exact ⟨m, by simp [respMon, hA, ha], hA, hC, hL, h4, h5, h6⟩
       · rw [h]
         have hact : (!m.active) = false := by simp [hA, ha]
-        refine ⟨m, ?_, hA, hC, hL, h4, h5, h6⟩
+        refine ⟨m, ?_, by simp [pre, rearm, hA], by simp [pre, rearm, hC], by simp [pre, rearm, hL],
+          by simp [pre, rearm, h4], by simp [pre, rearm, h5], by simp [pre, rearm, h6]⟩
         simp only [respMon, hact, Bool.false_eq_true, if_false]
         cases hcur : m.cur with
         | none => rfl
@@ -411,21 +687,23 @@ theorem resp_sim (s : State) (m : RespSt) (op : Op) (hR : RespRel s m) :
           rintro ⟨hok, hsince, hdyn⟩
           rcases hwhy with hn | hn | ⟨r', hr', htn⟩
           · rw [hC, hn] at hcur; simp at hcur
-          · rw [hn] at hok; simp at hok
+          · rw [hok] at hn; simp [Fail.transmitted] at hn
           · have : r' = r := by rw [hC, hr'] at hcur; exact Option.some.inj hcur
             subst this
-            obtain ⟨t, ht, _, hno⟩ := trigger_none s r' now d htn
-            apply hno
-            rw [hL, ht] at hsince
-            simp only [since, T_GenCamMin] at hsince
-            have hsince := of_decide_eq_true hsince
-            exact ⟨by omega, specDyn_dynamics s m r' d h4 h5 h6 hdyn⟩
+            rcases trigger_none hav s r' now htn with ⟨hl, _⟩ | ⟨t, ht, _, hno⟩
+            · rw [hL, hl] at hsince; simp [since] at hsince
+            · apply hno
+              rw [hL, ht] at hsince
+              simp only [since, T_GenCamMin] at hsince
+              have hsince := of_decide_eq_true hsince
+              exact ⟨by omega, specDyn_dynamics hav s m r' h4 h5 h6 hdyn⟩
     | some c =>
-      obtain ⟨ha, hok, r, cond, hcur, htr, hcx, hs⟩ := check_some s now d ok c hc
+      obtain ⟨ha, r, cond, hcur, htr, hcx, hs⟩ := check_some_iso hav s now f c hI hc
       have hact : (!m.active) = false := by simp [hA, ha]
       have hmc : m.cur = some r := by rw [hC, hcur]
       rw [hs]
       refine ⟨_, by simp only [respMon, hact, Bool.false_eq_true, if_false, hmc]; rfl, ?_⟩
-      cases hh : r.heading <;> cases hv : r.speed <;> simp [RespRel, afterSend, hA, hcur, h4, h5, h6, hh, hv]
+      cases hh : r.heading <;> cases hv : r.speed <;> cases hp : r.pos <;>
+        simp [afterSend, pre, rearm, hA, hcur, h4, h5, h6, hh, hv, hp]
 
 end FlexModel.Fac.CamLemmas
